@@ -3,6 +3,7 @@ package main
 // Scenario language over signed heads and the generators.
 
 import (
+	"bytes"
 	"crypto/elliptic"
 	"crypto/sha256"
 	"crypto/sha512"
@@ -10,6 +11,7 @@ import (
 	"encoding/base64"
 	"fmt"
 	"math/big"
+	"net"
 	"strings"
 
 	"github.com/ipfs/go-cid"
@@ -18,6 +20,7 @@ import (
 	"github.com/ipni/go-libipni/dagsync/ipnisync/head"
 	ic "github.com/libp2p/go-libp2p/core/crypto"
 	"github.com/libp2p/go-libp2p/core/peer"
+	"github.com/multiformats/go-multiaddr"
 	"github.com/multiformats/go-multihash"
 
 	"verif/harness/keypool"
@@ -546,5 +549,101 @@ func genOptions(c *vlib.Ctx) {
 				mk("SetField:cid:=mid(key+sig of Honest(new))", with(hNew, func(s *head.SignedHead) { s.Head = link(chain[2]) })), mk("Honest(new)", hNew)})
 			doGetHeadHist(c, typ, b.ID, []scenario{mk("Honest(new)", hNew), mk("ResignBy:b", honest(c, b, headCid, mainnetTopic))})
 		}
+	}
+}
+
+// ---- the shape of the address list ----
+
+// an HTTP address nobody listens on
+func deadHTTPAddr() multiaddr.Multiaddr {
+	l, err := net.Listen("tcp", "127.0.0.1:0")
+	if err != nil {
+		panic(err)
+	}
+	port := l.Addr().(*net.TCPAddr).Port
+	l.Close()
+	m, err := multiaddr.NewMultiaddr(fmt.Sprintf("/ip4/127.0.0.1/tcp/%d/http", port))
+	if err != nil {
+		panic(err)
+	}
+	return m
+}
+
+// genAddrShapes: whatever the address list looks like (nil entries, duplicates, a dead
+// address first), a head whose signer is not the publisher asked for is rejected, and the
+// publisher's own head is accepted whenever the list holds a usable address.
+func genAddrShapes(c *vlib.Ctx) {
+	headCid := chain[len(chain)-1]
+	older := chain[1]
+	defer func() { curAddrShape = "" }()
+	for _, shape := range addrShapes {
+		curAddrShape = shape
+		for ti, typ := range keypool.KeyTypes {
+			if ti > 1 && shape != "nil-first" && shape != "nil-last" && !c.Thorough() {
+				continue
+			}
+			ids := pool.OfType(typ)
+			a, b := ids[0], ids[1]
+			o := pool.Ids[(a.Index+3)%12]
+			for _, bs := range scenariosFor(c, a, b, o, headCid, mainnetTopic, false) {
+				if !(bs.name == "Honest" || strings.HasPrefix(bs.name, "ResignBy") || bs.name == "SetField:cid:=other" || bs.name == "SetField:topic:=absent") {
+					continue
+				}
+				sc := scenario{name: bs.name, keyType: typ, status: 200, body: encode(bs.sh), signer: a, expect: bs.expect, wantCid: headCid, sig: bs.name + ":" + typ}
+				c.Count("addr-shape-scenario:" + bs.name)
+				doGetHead(c, sc, a.ID)
+				doGetHead(c, sc, b.ID)
+				if shape == "only-nil" {
+					continue // a nil host Subscriber cannot look addresses up: Syncer level only
+				}
+				doSub(c, sc, a.ID, nil, cid.Undef)
+				doSub(c, sc, b.ID, nil, older)
+				if bs.name == "Honest" || bs.name == "ResignBy:same-type" {
+					doSub(c, sc, "", []peer.ID{a.ID}, cid.Undef)
+					doSub(c, sc, a.ID, []peer.ID{b.ID}, cid.Undef)
+				}
+			}
+		}
+	}
+}
+
+// ---- bytes kept by a caller ----
+
+// genKeptBytes: what Encode returned stays what it was while other heads are encoded
+// (Publisher.ServeHTTP hands the slice to the ResponseWriter; callers keep it).
+func genKeptBytes(c *vlib.Ctx) {
+	for ti, typ := range keypool.KeyTypes {
+		ids := pool.OfType(typ)
+		a, b := ids[0], ids[1]
+		first := honest(c, a, chain[len(chain)-1], mainnetTopic)
+		kept, err := first.Encode()
+		if err != nil {
+			panic(err)
+		}
+		snapshot := append([]byte{}, kept...)
+		others := []*head.SignedHead{
+			honest(c, a, chain[1], mainnetTopic),                 // same length, other root
+			honest(c, b, chain[2], mainnetTopic+"/longer-topic"), // longer
+			honest(c, pool.Ids[(a.Index+3)%12], chain[0], ""),    // other key type, shorter
+			honest(c, a, chain[len(chain)-1], mainnetTopic),      // the same head again
+		}
+		for i, oh := range others {
+			if _, err := oh.Encode(); err != nil {
+				panic(err)
+			}
+			c.Eval()
+			c.Count("kept-bytes")
+			rp := &replayT{Kind: "keptbytes", KeyType: typ, Note: fmt.Sprintf("Encode(head of key %d), then Encode of %d other head(s)", a.Index, i+1)}
+			if !bytes.Equal(kept, snapshot) {
+				c.Fail("encode:returned-bytes-overwritten-by-later-encode:"+typ,
+					fmt.Sprintf("the bytes Encode returned for one head changed when another head was encoded (after %d later Encode calls): a response still being written, or kept by a caller, is torn", i+1), rp)
+				break
+			}
+		}
+		// and they still are the publisher's head for every reader
+		sc := scenario{name: "KeptBytes", keyType: typ, status: 200, body: kept, signer: a, expect: "accept", wantCid: chain[len(chain)-1], sig: "kept-bytes-no-longer-verify:" + typ}
+		doValidate(c, sc)
+		doGetHead(c, sc, a.ID)
+		_ = ti
 	}
 }
